@@ -35,6 +35,9 @@ Definition is_symbol_literal (t : rtype) : bool := String.eqb (rt_cls t) "litera
 Fixpoint alias_get (al : list (string * rtype)) (k : string) : option rtype :=
   match al with [] => None | (k', v) :: r => if String.eqb k k' then Some v else alias_get r k end.
 
+Fixpoint alias_remove (al : list (string * rtype)) (k : string) : list (string * rtype) :=
+  match al with [] => [] | (k', v) :: r => if String.eqb k k' then alias_remove r k else (k', v) :: alias_remove r k end.
+
 Definition dedup_append (acc l : list string) : list string :=
   fold_left (fun a x => if existsb (String.eqb x) a then a else a ++ [x]) l acc.
 
@@ -97,7 +100,7 @@ Fixpoint convert_type (fuel : nat) (al : list (string * rtype)) (cname : string)
         else if String.eqb name "array" then Some ["Array"]
         else if String.eqb name "hash" then Some ["Hash"]
         else match alias_get al name with
-             | Some r => convert_type f al cname r
+             | Some r => convert_type f (alias_remove al name) cname r     (* the definition is read without the alias itself *)
              | None => Some ["Untyped"]
              end
       else if String.eqb cls "intersection" then
